@@ -1173,6 +1173,9 @@ func threadFreshness(c *core.Check, rule string, pll *core.Func) {
 			}
 		}
 	}
+	if len(newThread) == 0 && recycledThread(c, rule, pll, execs) {
+		return
+	}
 	var assignVT, assignInput []core.Hit
 	for _, h := range g.Find(func(n ast.Node) bool { _, ok := n.(*ast.AssignStmt); return ok }) {
 		as := h.N.(*ast.AssignStmt)
